@@ -4,6 +4,25 @@ import json, os
 PROPS = [json.loads(l)['id'] for l in open('/verif/properties.jsonl')]
 
 CLAIMED = {
+ 'C10': dict(
+   category='proof',
+   text=('PARTIAL proof on definitions regenerated from the source + trace correspondence + dense oracles. Translated from yastn/tn/mps/_tdvp.py on every run (fail-closed): '
+         '(a) the clock -- number of steps, step length, clock advance, the (time, length) arguments of the sweeps of a 2nd and a 4th order step, the evolution parameters '
+         'of forward and backward local updates (tools/translate/tr_step.py); (b) the 1-site and 2-site sweep programs (tools/translate/tr_sweep.py). Proved: for every '
+         'interval longer than 1e-12 and every dt > 0 the step count is the least n with n dt > T - 1e-12, the steps tile the interval exactly so every snapshot is '
+         'reached exactly, 0 < ds <= dt up to the slack; a 2nd order step is one sweep at the midpoint, a 4th order step five sweeps whose lengths add up to the step '
+         'and that are each evaluated at the midpoint of the sub-interval they cover (for every value of the scheme constant), the constant cancels the cubic error term '
+         'to 1e-15; forward updates evolve by -u dt/2 and backward updates by +u dt/2 (ring identities). For every chain length, with and without precompute and for '
+         'every sequence of 1-site / 2-site sweeps on one environment: each local generator is built from environments that are present and computed from the current '
+         'site tensors, the centre is never evolved outside the chain, no gauge move is refused, the sweep leaves the environment ready for the next one. Ties: '
+         'operation-level traces of real tdvp_ runs replayed through the model (statuses measured by recomputation); (time, length) of every real sweep and TDVP_out vs '
+         'the generated arithmetic in exact rationals. NOT proved: local exponentials (C18), exactness of the splitting, conservation laws, orders of convergence, the '
+         'mixed 12site method -- compared with dense exp(-u t H) psi at maximal bond dimension (real, imaginary, complex u; 1site / 2site / 12site; 2nd / 4th; flags), '
+         'norm / energy / charge / canonical form at small bond dimension, and scipy solve_ivp for time-dependent generators (error bound and halving ratio).'),
+   design_ref='DESIGN.md section 6 C10',
+   note=('Trusted: Coq kernel, no axioms; translators tr_step.py / tr_sweep.py / pyexpr.py; the status semantics of the environment operations is hand-written and tied by '
+         'traces (see C09); float clock vs exact rationals compared at 1e-12..1e-13 relative; the model clock treats u as a rational symbol.'),
+   technique='Coq proof over translated step arithmetic and sweep programs + operation-level trace correspondence + dense scipy oracles'),
  'C09': dict(
    category='proof',
    text=('PARTIAL proof on sweep programs regenerated from the source + operation-level trace correspondence + dense oracles. The 1-site and 2-site sweep PROGRAMS are '
